@@ -44,8 +44,17 @@ func buildParser(gr *gfam.Grammar, tc g.TypeCache, k int) (p *participle.Parser[
 	for _, u := range gr.Root.Unions() {
 		opts = append(opts, unionOption(u, tc))
 	}
-	if len(gr.Elide) > 0 {
-		opts = append(opts, participle.Elide(gr.Elide...))
+	// one Elide option per type: the elision set is the union of all Elide options
+	for _, el := range gr.Elide {
+		opts = append(opts, participle.Elide(el))
+	}
+	if gr.Mapper {
+		opts = append(opts, participle.Map(func(t lexer.Token) (lexer.Token, error) {
+			if t.Value == "c" {
+				t.Value = "cc+"
+			}
+			return t, nil
+		}, "Ident"))
 	}
 	if len(gr.CI) > 0 {
 		opts = append(opts, participle.CaseInsensitive(gr.CI...))
@@ -475,6 +484,7 @@ func replay(c *hx.Ctx, key string) []hx.Violation {
 }
 
 func main() {
+	g.IdentType = lexDef.Symbols()["Ident"]
 	hx.Main(&hx.Spec{Engine: "gramx", JobTimeout: 30 * time.Second, Levels: map[string]string{
 		"C01": "model_checking", "C02": "model_checking", "C10": "model_checking", "C11": "model_checking", "C13": "exploration",
 	}, Plan: plan, Replay: replay})
